@@ -38,6 +38,8 @@ TRUSTED_BASE = [
     "tools/translate/gen_c07.py regenerates IDENTITY_ENCODER, the four identity CMap names of CMapDB.get_cmap, the "
     "DW/DW2 defaults, the TrueType collections tuple and the writing-mode argument of get_unicode_map from the source",
     "Python twin of the Lean spec in tools/harness/props/c07.py (compared with the Lean spec on every case)",
+    "PDFCIDFont.__init__ glue (cidcoding, DW/DW2 validation, choice of W/DW vs W2/DW2 by writing mode) is hand-modelled "
+    "(cidCoding, dwValue, dw2Value, cidCharWidth, cidCharDisp) and tie-checked on ill-typed / ill-formed dictionaries",
     "PSStackParser tokenisation of ToUnicode streams is not modelled: the model starts from the token list "
     "(hex strings, integers, names, arrays, keywords); streams are serialised from tokens in one fixed spelling",
     "shipped CMap pickles are data: validated against Python codecs by sampling (quick) / exhaustively (thorough)",
@@ -83,6 +85,21 @@ STATEMENT_STATUS: Dict[str, str] = {
     "disp2_spec": "proved: position vector of a cid = (vx, vy) of the font's own latest W2 entry, else (none, DW2[0] or 880)",
     "trie_build_codes": "proved: a trie built by add_code2cid from a prefix-free table has the table's codes",
     "trie_build_decode": "proved: CMap.decode on the built trie = CIDs of the table's codes",
+    "widths2_total": "proved: get_widths2 returns a dictionary on EVERY element list (ill-formed arrays included)",
+    "cidfont_metrics_total": "proved: every CID font has a width and a displacement for every cid, any W/DW/W2/DW2",
+    "dw2Value_eq": "proved (helper): DW2 validation = the pair of a two-number list, else the regenerated default",
+    "cidfont_width_spec": "proved: PDFCIDFont.char_width (horizontal) from the dictionary = latest W entry, else DW if a "
+                          "number, else 1000; every DW value, W2/DW2 irrelevant",
+    "cidfont_width2_spec": "proved: vertical width and position vector = latest W2 entry, else DW2 if a list of two "
+                           "numbers, else [880 -1000]; W/DW irrelevant",
+    "writing_mode_selects_arrays": "proved: the writing mode alone decides which arrays are read; horizontal disp = 0",
+    "cidcoding_spec": "proved: cidcoding = Registry-Ordering with surrounding white space (str.strip) removed",
+    "cidcoding_unknown": "proved: missing / ill-typed Registry and Ordering read as unknown-unknown",
+    "cidchar_map": "proved (handler level): cid <code> pairs -> cid maps to the UTF-16BE text of the string",
+    "cidrange_map": "proved (handler level): <lo> <hi> cid -> cid+i maps to the text of code lo+i (carry form), no "
+                    "exception for codes of any length",
+    "codespace_ignored": "proved: codespace / notdef range sections (one or several code widths) leave the parsed map "
+                         "unchanged, whatever their operands",
     "future work": "utf16 round trip utf16Ignore (utf16Encode cps) = cps; theorems over the Lean model of "
                    "TrueTypeFont.create_unicode_map (formats 0/2/4 are modelled and tie-checked incl. damaged files, "
                    "and checked against independently built tables on the implementation, but no theorem)",
@@ -2135,6 +2152,314 @@ CLASSIFIERS = {
 }
 
 
+# =========================================================================== round 6: PDFCIDFont glue, cid sections
+
+OTHER_KINDS = ["name", "str", "list", "none", "dict"]
+
+
+def other_obj(kind: str):
+    from pdfminer.psparser import LIT
+    return {"name": LIT("x"), "str": b"12", "list": [5], "none": None, "dict": {}}[kind]
+
+
+def welem_from_word(w: str):
+    """Inverse of welem_word (OTHER -> a name object)."""
+    from pdfminer.psparser import LIT
+    if w == "o":
+        return LIT("x")
+    if w.startswith("l:"):
+        return [welem_from_word(x) for x in w[2:].split(";")] if len(w) > 2 else []
+    return parse_num_word(w)
+
+
+def glue_font(cfg):
+    """The PDFCIDFont of a fontglue configuration: W, DW, W2 and DW2 all present (or absent) whatever the mode."""
+    from pdfminer.pdffont import PDFCIDFont
+    from pdfminer.psparser import LIT
+    spec: Dict[str, Any] = {"Type": LIT("Font"), "Subtype": LIT("CIDFontType2"), "BaseFont": LIT("X"),
+                            "CIDSystemInfo": {"Registry": b"Adobe", "Ordering": b"Identity", "Supplement": 0},
+                            "Encoding": LIT("Identity-V" if cfg["vertical"] else "Identity-H"), "FontDescriptor": {}}
+    if cfg["w"] is not None:
+        spec["W"] = [welem_from_word(w) for w in cfg["w"]]
+    if cfg["w2"] is not None:
+        spec["W2"] = [welem_from_word(w) for w in cfg["w2"]]
+    for key in ("dw", "dw2"):
+        v = cfg[key]
+        if v == "-":
+            continue
+        spec[key.upper()] = other_obj(v[2:]) if v.startswith("o:") else welem_from_word(v)
+    return PDFCIDFont(None, spec)
+
+
+def glue_expect(cfg, cid: int):
+    """What theorems cidfont_width_spec / cidfont_width2_spec say, when the array of the font's writing mode is
+    well-formed: (width, disp); None when that array is not from the grammar."""
+    if cfg["vertical"]:
+        if cfg.get("w2ent") is None:
+            return None
+        sw = spec_widths2([parse_w2ent_word(w) for w in cfg["w2ent"]])
+        d = cfg["dw2"]
+        pair = None
+        if d.startswith("l:"):
+            xs = [x for x in d[2:].split(";") if x] if len(d) > 2 else []
+            if len(xs) == 2 and all(x != "o" for x in xs):
+                pair = (F(parse_num_word(xs[0])), F(parse_num_word(xs[1])))
+        if cid in sw:
+            return sw[cid][0], (sw[cid][1], sw[cid][2])
+        return (pair[1] if pair else F(-1000)), (None, pair[0] if pair else F(880))
+    if cfg.get("went") is None:
+        return None
+    sw = spec_widths([parse_went_word(w) for w in cfg["went"]])
+    d = cfg["dw"]
+    dflt = F(parse_num_word(d)) if d[0] in "if" else F(1000)
+    return sw.get(cid, dflt), 0
+
+
+def disp_words(disp) -> List[str]:
+    if not isinstance(disp, tuple):
+        return ["D", str(disp)]
+    return ["D", "None" if disp[0] is None else C.frac_str(F(disp[0])), C.frac_str(F(disp[1]))]
+
+
+def same_numbers(a: List[str], b_: List[str]) -> bool:
+    if len(a) != len(b_):
+        return False
+    for x, y in zip(a, b_):
+        if x == y:
+            continue
+        try:
+            if not close(F(x), F(y)):
+                return False
+        except (ValueError, ZeroDivisionError):
+            return False
+    return True
+
+
+def check_fontglue(ctx: C.Ctx, lines, meta, cfg, cids, origin="gen") -> None:
+    font, e = call(lambda: glue_font(cfg))
+    if e is not None:
+        ctx.case(("glue", json.dumps(cfg, sort_keys=True)), True, branch="glue:exception")
+        ctx.fail(C.Failure("PDFCIDFont could not be built (W / DW / W2 / DW2 of any shape must be survivable)",
+                           dict(cfg, cid=cids[0] if cids else 0), "a font", exc_line(e),
+                           {"group": "fontglue", "exc": type(e).__name__}))
+        return
+    v = cfg["vertical"]
+    drv = lambda x: "-" if x == "-" else ("o" if x.startswith("o:") else x)  # noqa: E731
+    dw2w = cfg["dw2"]
+    dw2w = "-" if dw2w == "-" else (dw2w if dw2w.startswith("l:") else "l:")      # a DW2 that is no list reads as []
+    for cid in cids:
+        (wd, e1), (dp, e2) = call(lambda: font.char_width(cid) * 1000), call(lambda: font.char_disp(cid))
+        inp = dict(cfg, cid=cid)
+        ctx.case(("glue", json.dumps(inp, sort_keys=True)), True, sample=inp if origin == "gen" else None,
+                 branch="glue:" + ("v" if v else "h") + ":dw=" + (cfg["dw2"] if v else cfg["dw"])[:2]
+                 + (":wild" if (cfg.get("w2ent") if v else cfg.get("went")) is None else ":grammar"))
+        if e1 is not None or e2 is not None:
+            ctx.fail(C.Failure("char_width / char_disp of a CID font raised", inp, "a number", exc_line(e1 or e2),
+                               {"group": "fontglue", "exc": type(e1 or e2).__name__}))
+            continue
+        got = ["R", C.frac_str(F(wd))] + disp_words(dp)
+        lines.append("cw %s %s %s %d %s | %s" % ("1" if v else "0", drv(cfg["dw"]), dw2w, cid,
+                                                 " ".join(cfg["w"]) if cfg["w"] else "-",
+                                                 " ".join(cfg["w2"]) if cfg["w2"] else "-"))
+        meta.append((inp, got))
+        exp = glue_expect(cfg, cid)
+        if exp is not None:
+            want = ["R", C.frac_str(F(exp[0]))] + disp_words(exp[1])
+            if not same_numbers(want, got):
+                ctx.fail(C.Failure("CID font: width / position vector of a cid differs from W/DW (W2/DW2) of its own "
+                                   "writing mode, or an ill-typed default was not replaced by the standard one",
+                                   inp, " ".join(want), " ".join(got),
+                                   {"group": "fontglue", "vertical": v, "dflt": (cfg["dw2"] if v else cfg["dw"])[:2]}))
+
+
+def gen_glue_cfg(rng):
+    v = rng.random() < 0.5
+    went = gen_w_entries(rng)
+    w2ent = gen_w2_entries(rng)
+    w, w2 = render_w(went), render_w2(w2ent)
+    wild_w, wild_w2 = rng.random() < 0.3, rng.random() < 0.3
+    if wild_w:
+        w = mutate_w(rng, w)
+    if wild_w2:
+        w2 = mutate_w(rng, w2)
+    r = rng.random()
+    dw = "-" if r < 0.3 else (num_word(rng.choice([1000, 0, 250.5, 600, -20])) if r < 0.65
+                              else "o:" + rng.choice(OTHER_KINDS))
+    r = rng.random()
+    num = lambda: num_word(rng.choice([880, 700, -1000, -800, -500.5, 0]))  # noqa: E731
+    if r < 0.25:
+        dw2 = "-"
+    elif r < 0.55:
+        dw2 = "l:" + num() + ";" + num()
+    elif r < 0.85:
+        dw2 = "l:" + ";".join(rng.choice([num(), num(), "o"]) for _ in range(rng.choice([0, 1, 2, 2, 3, 4])))
+    else:
+        dw2 = "o:" + rng.choice(["name", "str", "none", "dict"])
+    cfg = {"group": "fontglue", "vertical": v,
+           "w": [welem_word(x) for x in w] if rng.random() < 0.9 else None,
+           "w2": [welem_word(x) for x in w2] if rng.random() < 0.9 else None,
+           "dw": dw, "dw2": dw2,
+           "went": None if wild_w else [went_word(x) for x in went],
+           "w2ent": None if wild_w2 else [w2ent_word(x) for x in w2ent]}
+    if cfg["w"] is None:
+        cfg["went"] = []
+    if cfg["w2"] is None:
+        cfg["w2ent"] = []
+    ents = w2ent if v else went
+    cids = [en[1] for en in ents] + [en[1] + 1 for en in ents] + [en[2] for en in ents if en[0] == "R"]
+    rng.shuffle(cids)
+    cids = [c for c in cids if 0 <= c <= 65535][:3] + [rng.choice(BOUNDARY_CIDS), rng.randint(0, 400)]
+    return cfg, cids
+
+
+def flush_glue(ctx: C.Ctx, lines, meta) -> None:
+    if ctx.driver is not None and lines:
+        for (inp, got), out in zip(meta, ctx.driver.ask(lines)):
+            if not same_numbers(out.split(" "), got):
+                ctx.disagree("fontglue.model", inp, " ".join(got), out)
+
+
+def coding_case(ctx: C.Ctx, b: "Batch", reg, order) -> None:
+    """cidcoding from CIDSystemInfo: implementation vs model; vs `registry.strip()-ordering.strip()` for strings."""
+    from pdfminer.pdffont import PDFCIDFont
+    from pdfminer.psparser import LIT
+    info: Dict[str, Any] = {}
+    if reg is not None:
+        info["Registry"] = reg
+    if order is not None:
+        info["Ordering"] = order
+    font, e = call(lambda: PDFCIDFont(None, {"Type": LIT("Font"), "Subtype": LIT("CIDFontType2"), "BaseFont": LIT("X"),
+                                             "CIDSystemInfo": info, "Encoding": LIT("Identity-H"),
+                                             "FontDescriptor": {}}))
+    word = lambda x: x.hex() if isinstance(x, bytes) and x else ("-" if not isinstance(x, bytes) else None)  # noqa: E731
+    inp = {"group": "coding", "registry": reg.hex() if isinstance(reg, bytes) else None,
+           "ordering": order.hex() if isinstance(order, bytes) else None}
+    ctx.case(("coding", repr(reg), repr(order)), True, branch="coding:" + ("str" if isinstance(reg, bytes) else "other")
+             + ("/str" if isinstance(order, bytes) else "/other"))
+    if e is not None:
+        ctx.fail(C.Failure("PDFCIDFont could not be built from a CIDSystemInfo", inp, "a font", exc_line(e),
+                           {"group": "coding", "exc": type(e).__name__}))
+        return
+    got = "K " + font.cidcoding.encode("latin1").hex()
+    wr, wo = word(reg), word(order)
+    if wr is not None and wo is not None:          # the empty string has no hex word; covered by the property check
+        b.tie("coding.model", "coding %s %s" % (wr, wo), got, inp)
+    white = b" \t\n\r\x0b\x0c\x1c\x1d\x1e\x1f\x85\xa0"
+    want = (reg.strip(white) if isinstance(reg, bytes) else b"unknown") + b"-" + \
+        (order.strip(white) if isinstance(order, bytes) else b"unknown")
+    if got != "K " + want.hex():
+        ctx.fail(C.Failure("cidcoding is not Registry-Ordering with surrounding white space removed", inp,
+                           "K " + want.hex(), got, {"group": "coding"}))
+
+
+def run_fontglue(ctx: C.Ctx) -> None:
+    from pdfminer.psparser import LIT
+    rng = ctx.rng
+    lines: List[str] = []
+    meta: List[Any] = []
+    for _ in range(ctx.n(250, 8000)):
+        cfg, cids = gen_glue_cfg(rng)
+        check_fontglue(ctx, lines, meta, cfg, cids)
+    flush_glue(ctx, lines, meta)
+    b = Batch(ctx)
+    pads = [b"", b" ", b"\t", b"\n ", b"\xa0", b"\x85", b"\x1c\x1f", b"\x0b\x0c\r"]
+    cores = [b"Adobe", b"Japan1", b"Identity", b"A B", b"x", b"\x00", b"\xe9", b"GB1", b"a\xa0b"]
+    for i in range(ctx.n(120, 3000)):
+        def one():
+            r = rng.random()
+            if r < 0.75:
+                return rng.choice(pads) + rng.choice(cores) + rng.choice(pads)
+            if r < 0.85:
+                return rng.choice(pads) + rng.choice(pads)
+            return rng.choice([None, 5, LIT("Adobe"), [b"Adobe"]])
+        coding_case(ctx, b, one(), one())
+    b.flush()
+
+
+def spec_cidsecs(secs) -> Dict[int, List[int]]:
+    """Twin of theorems cidchar_map / cidrange_map (assignments with add_cid2unichr's U+00A0 rule)."""
+    m: Dict[int, List[int]] = {}
+
+    def put(k, cps):
+        if cps == [0xA0] and m.get(k) == [0x20]:
+            return
+        m[k] = cps
+    for kind, ents in secs:
+        for e in ents:
+            if kind == "cidchar":
+                put(e[0], utf16_ignore_ref(e[1]))
+            else:
+                lo, hi, cid = e
+                n = int.from_bytes(hi[-4:], "big") + 1 - int.from_bytes(lo[-4:], "big")
+                for i in range(max(n, 0)):
+                    put(cid + i, utf16_ignore_ref(inc_be(lo, i)))
+    return m
+
+
+def cidsec_toks(secs) -> List[Any]:
+    toks: List[Any] = []
+    for kind, ents in secs:
+        toks += [("i", len(ents)), ("k", "begin" + kind)]
+        for e in ents:
+            toks += [("i", e[0]), ("s", e[1])] if kind == "cidchar" else [("s", e[0]), ("s", e[1]), ("i", e[2])]
+        toks.append(("k", "end" + kind))
+    return toks
+
+
+def cidsec_outcome(secs):
+    toks = HEADER_TOKS + cidsec_toks(secs) + TRAILER_TOKS
+    got, e = call(lambda: impl_tounicode(toks_stream(toks)))
+    return toks, (map_line(got) if e is None else exc_line(e)), map_line(spec_cidsecs(secs))
+
+
+def secs_words(secs):
+    return [[k, [[x.hex() if isinstance(x, bytes) else x for x in e] for e in ents]] for k, ents in secs]
+
+
+def secs_from_words(ws):
+    return [(k, [tuple(bytes.fromhex(x) if isinstance(x, str) else x for x in e) for e in ents]) for k, ents in ws]
+
+
+def check_cidsec(ctx: C.Ctx, b: "Batch", secs, origin="gen") -> None:
+    toks, impl_out, spec_out = cidsec_outcome(secs)
+    inp = {"group": "cidsec", "sections": secs_words(secs)}
+    ctx.case(("cidsec", json.dumps(inp["sections"])), spec_out != "M -", sample=inp if origin == "gen" else None,
+             branch="cidsec:" + "+".join(sorted({k for k, _ in secs})))
+    b.tie("cidsec.model", "tu " + " ".join(tok_word(t) for t in toks), impl_out, inp)
+    if impl_out != spec_out:
+        small = C.ddmin(list(secs), lambda sub: (lambda r: r[1] != r[2])(cidsec_outcome(sub)), 40) or secs
+        _, i2, s2 = cidsec_outcome(small)
+        ctx.fail(C.Failure("cidchar / cidrange sections parsed by CMapParser differ from the map they define",
+                           {"group": "cidsec", "sections": secs_words(small)}, s2, i2,
+                           {"group": "cidsec", "exc": i2[2:] if i2.startswith("E ") else None}))
+
+
+def run_cidsec(ctx: C.Ctx) -> None:
+    rng = ctx.rng
+    b = Batch(ctx)
+    for _ in range(ctx.n(200, 8000)):
+        secs = []
+        for _ in range(rng.randint(1, 3)):
+            if rng.random() < 0.4:
+                secs.append(("cidchar", [(rng.choice([0, 1, 65, 300, 65535, -3, rng.randint(0, 70000)]),
+                                          gen_target(rng, wild=rng.random() < 0.2)) for _ in range(rng.randint(0, 4))]))
+            else:
+                ents = []
+                for _ in range(rng.randint(0, 3)):
+                    n = rng.choice([1, 2, 2, 2, 3, 4, 5, 6])
+                    pre = bytes(rng.choice([0, 1, 0x30, 0xFF]) for _ in range(max(n - 4, 0)))
+                    width = min(n, 4)
+                    top = 256 ** width
+                    a = rng.choice([0, 0x41, 0xFE, top - 3, rng.randrange(top)]) % top
+                    span = rng.choice([0, 0, 1, 2, 5, 40, 300, -1, -7])
+                    hi = min(max(a + span, 0), top - 1)
+                    ents.append((pre + a.to_bytes(width, "big"), pre + hi.to_bytes(width, "big"),
+                                 rng.choice([0, 1, 7, 200, 65530, -2, rng.randint(0, 65535)])))
+                secs.append(("cidrange", ents))
+        check_cidsec(ctx, b, secs)
+    b.flush()
+
+
 def replay(ctx: C.Ctx, doc, from_corpus: bool = False) -> None:
     inp = doc.get("input", {})
     g = inp.get("group")
@@ -2200,6 +2525,16 @@ def replay(ctx: C.Ctx, doc, from_corpus: bool = False) -> None:
             if not close(exp, got):
                 ctx.fail(C.Failure("CID font: width of a cid differs from W/DW (W2/DW2)", inp, str(exp), got,
                                    {"group": "fontwidth", "vertical": vertical}))
+    elif g == "fontglue":
+        cfg = {k: v for k, v in inp.items() if k != "cid"}
+        lines, meta = [], []
+        check_fontglue(ctx, lines, meta, cfg, [inp.get("cid", 0)], "replay")
+        flush_glue(ctx, lines, meta)
+    elif g == "coding":
+        coding_case(ctx, b, bytes.fromhex(inp["registry"]) if inp.get("registry") is not None else None,
+                    bytes.fromhex(inp["ordering"]) if inp.get("ordering") is not None else None)
+    elif g == "cidsec":
+        check_cidsec(ctx, b, secs_from_words(inp["sections"]), "replay")
     elif g == "widths":
         from pdfminer import pdffont
         vertical = inp["vertical"]
@@ -2249,6 +2584,8 @@ def run(ctx: C.Ctx) -> None:
     run_widths(ctx)
     run_umapsel(ctx)
     run_fontwidth(ctx)
+    run_fontglue(ctx)
+    run_cidsec(ctx)
     run_ttf(ctx)
     run_doc(ctx)
     run_codec(ctx)
